@@ -419,7 +419,15 @@ def arm_table(prog, body, adt_name, switch_blk=None):
                 if j != "term" and rv[0] == "disc":
                     base = rv[1]
                     ty = body.local_ty(base[0])
-                    if adt_name in ty:
+                    while ty.startswith("&"):
+                        ty = ty[1:].strip()
+                        if ty.startswith("mut "):
+                            ty = ty[4:]
+                        if ty.startswith("'"):
+                            ty = ty.split(" ", 1)[1] if " " in ty else ty
+                    has_proj = any(e != "*" for e in base[1:])
+                    if (not has_proj and (ty == adt_name or ty.startswith(adt_name + "<"))) or (has_proj and adt_name in ty) or \
+                            (has_proj and any(isinstance(e, str) and e.startswith(".") for e in base[1:])):
                         ok = True
             if ok:
                 sb = b
@@ -533,3 +541,91 @@ def deep_places(body, op, depth=8, _seen=None):
 
 def places_have_field(places, adt, field):
     return any(place_has_field(p, adt, field) for p in places)
+
+
+def deep_aggs(body, op, depth=8):
+    """ADT aggregates (adt path, variant) an operand's value may derive from (through copies, call arguments, rvalues)"""
+    out = set()
+    seen = set()
+    work = [(op, depth)]
+    while work:
+        o, d = work.pop()
+        p = op_place(o)
+        if p is None or d < 0:
+            continue
+        if p[0] in seen:
+            continue
+        seen.add(p[0])
+        for (bb, jj, rv) in body.defs_of(p[0]):
+            if jj == "term":
+                for a in rv["args"]:
+                    work.append((a, d - 1))
+                continue
+            if rv[0] == "agg":
+                if rv[1]["k"] == "adt":
+                    out.add((rv[1]["adt"], rv[1]["variant"]))
+                for a in rv[2]:
+                    work.append((a, d - 1))
+            else:
+                for a in rvalue_operands(rv):
+                    work.append((a, d - 1))
+                for pl in rvalue_places(rv):
+                    work.append((["c", pl], d - 1))
+    return out
+
+
+def guarded_increase(body, blk, idx):
+    """is the assignment `F = x` at (blk, idx) reachable only through the true edge of a comparison x > F (or F < x)?"""
+    s = body.stmts(blk)[idx]
+    dst, rv = s[1], s[2]
+    if rv[0] != "use":
+        return False
+    val = rv[1]
+    for sb in body.live_blocks():
+        t = body.term(sb)
+        if t["t"] != "switch" or not body.dominates(sb, blk):
+            continue
+        pl = op_place(t["on"])
+        if not pl or len(pl) != 1:
+            continue
+        for (bb, jj, rv2) in body.defs_of(pl[0]):
+            if jj == "term" or rv2[0] != "bin" or rv2[1] not in ("Gt", "Lt", "Ge", "Le"):
+                continue
+
+            def is_field(o):
+                q = op_place(o)
+                if q is None:
+                    return False
+                if q == dst:
+                    return True
+                return any(og[0] == "place" and og[1] == dst for og in local_origins(body, o))
+
+            def is_val(o):
+                q, v = op_place(o), op_place(val)
+                if q is None or v is None:
+                    return False
+                if q == v:
+                    return True
+                ra = set(tuple(x[1]) if x[0] == "place" else (x[0], x[1] if x[0] == "arg" else id(x)) for x in local_origins(body, o))
+                rb = set(tuple(x[1]) if x[0] == "place" else (x[0], x[1] if x[0] == "arg" else id(x)) for x in local_origins(body, val))
+                if ra & rb:
+                    return True
+                # copies of the same local
+                da = [r[1] for (_, j_, r) in body.defs_of(q[0]) if j_ != "term" and r[0] == "use"] if len(q) == 1 else []
+                return any(op_place(x) == v for x in da)
+            tr, fa = switch_edges_on_local(body, sb)
+            good = None
+            if rv2[1] == "Gt" and is_val(rv2[2]) and is_field(rv2[3]):
+                good = tr
+            elif rv2[1] == "Lt" and is_field(rv2[2]) and is_val(rv2[3]):
+                good = tr
+            elif rv2[1] == "Le" and is_val(rv2[2]) and is_field(rv2[3]):
+                good = fa
+            elif rv2[1] == "Ge" and is_field(rv2[2]) and is_val(rv2[3]):
+                good = fa
+            if good is None:
+                continue
+            bad = (tr | fa) - good
+            if blk in body.reachable_from(list(good)) and blk not in body.reachable_from(list(bad), avoid={sb}):
+                return True
+    return False
